@@ -125,9 +125,17 @@ def gen_mesh_areas(rng):
 
 
 def gen_hull(rng):
-    kind = rng.choice(["random", "collinear", "dup", "circle", "reversed"])
+    kind = rng.choice(["random", "collinear", "dup", "circle", "reversed", "dip", "dip"])
     n = rng.choice([3, 4, 8, 30, 100])
-    if kind == "circle" or kind == "reversed":
+    if kind == "dip":
+        # a hull on which the distance from one end of the diameter first rises, then dips, then rises to the other end: the row
+        # of the pair scan that holds the diameter is not unimodal; turned by a random angle so that the hull may start anywhere
+        base = [[0.0, 0.0], [7.0, -1.0], [6.9, 0.5], [5.0, 6.0]]
+        t = rng.uniform(0, 2 * math.pi)
+        pts = [[x * math.cos(t) - y * math.sin(t), x * math.sin(t) + y * math.cos(t)] for x, y in base]
+        pts += [[sum(p[0] for p in pts) / 4 + rng.uniform(-0.5, 0.5), sum(p[1] for p in pts) / 4 + rng.uniform(-0.5, 0.5)] for _ in range(rng.choice([0, 3]))]
+        rng.shuffle(pts)
+    elif kind == "circle" or kind == "reversed":
         pts = [[3 * math.cos(2 * math.pi * i / n), 2 * math.sin(2 * math.pi * i / n)] for i in range(n)]
         if kind == "reversed":
             pts.reverse()
